@@ -1,6 +1,7 @@
 package main
 
 import (
+	"encoding/binary"
 	"fmt"
 	"os"
 	"path/filepath"
@@ -33,6 +34,7 @@ type rEnv struct {
 	mu       sync.Mutex
 	rids     map[uint64]string // goroutine -> round name, for rounds that overlap
 	lastPick map[string]string // round name -> server picked last
+	latest   uint32            // latestReading handed to the rounds the driver runs
 	sched    bool              // the report loop's scheduling events are traced; rounds are named as they begin
 	recent   bool              // last-sync.txt says the last successful sync is recent
 	nlaunch  int
@@ -59,6 +61,8 @@ func (r *rEnv) with(j hx.J) hx.J {
 }
 
 func (r *rEnv) fake(name string) *hx.FakeTCP {
+	r.mu.Lock()
+	defer r.mu.Unlock()
 	if f, ok := r.fakes[name]; ok {
 		return f
 	}
@@ -75,7 +79,7 @@ func (r *rEnv) fake(name string) *hx.FakeTCP {
 
 func (r *rEnv) gcaServer(name string, banned bool) client.GCAServer {
 	f := r.fake(name)
-	return client.GCAServer{Banned: banned, Location: "127.0.0.1", TcpPort: f.Port, UdpPort: uint16(r.cli.SinkPort), HttpPort: 1}
+	return client.GCAServer{Banned: banned, Location: "127.0.0.1", TcpPort: f.Port, UdpPort: f.UDPPort, HttpPort: 1}
 }
 
 // serve makes endpoint name answer in the given mode with the given body.
@@ -97,11 +101,12 @@ type replySpec struct {
 	dt       int64  // time shift
 	signer   string // "" = the endpoint's own key
 	truncate int    // >0: rogue short reply of that length
+	missing  bool   // the server holds nothing: every bit of the bitfield is clear
 }
 
 func (r *rEnv) entry(key string, banned bool, port uint16, signer string) hx.RawServer {
 	f := r.fake(key)
-	rs := hx.RawServer{PublicKey: r.abs.KR.Pub(key), Banned: banned, Location: "127.0.0.1", HttpPort: port, TcpPort: f.Port, UdpPort: uint16(r.cli.SinkPort)}
+	rs := hx.RawServer{PublicKey: r.abs.KR.Pub(key), Banned: banned, Location: "127.0.0.1", HttpPort: port, TcpPort: f.Port, UdpPort: f.UDPPort}
 	if signer != "" {
 		rs.Sig = r.abs.SR.Sign(signer, hx.RefServerSigningBytes(rs))
 	}
@@ -115,7 +120,9 @@ func (r *rEnv) build(owner string, sp replySpec) []byte {
 	}
 	rr := hx.RawReply{DeviceKey: r.abs.KR.Gen(dev), Servers: sp.servers, Time: uint64(time.Now().Unix() + sp.dt)}
 	for i := range rr.Bitfield {
-		rr.Bitfield[i] = 0xff
+		if !sp.missing {
+			rr.Bitfield[i] = 0xff
+		}
 	}
 	if sp.mig {
 		rr.NewGCA = r.abs.KR.Gen(sp.newGCA)
@@ -164,7 +171,7 @@ func (r *rEnv) roundAs(name string) chan bool {
 				r.rids[hx.GoID()] = name
 				r.mu.Unlock()
 			}
-			done <- catchPanic(func() { ok = r.cli.C.VerifSyncRound(0) })
+			done <- catchPanic(func() { ok = r.cli.C.VerifSyncRound(r.latest) })
 		}()
 		var p string
 		select {
@@ -291,6 +298,19 @@ func runRounds(c *ctx) error {
 				}
 			}
 			switch ev {
+			case "Send":
+				// a datagram: by which round (if any) and to which server (by its UDP port)
+				raw := args[0].([]byte)
+				dst := args[1].(client.GCAServer)
+				to := "?"
+				r.mu.Lock()
+				for n, f := range r.fakes {
+					if f.UDPPort == dst.UdpPort {
+						to = n
+					}
+				}
+				r.mu.Unlock()
+				t.Emit(r.with(hx.J{"a": "Send", "ts": hx.Clamp30(uint64(binary.LittleEndian.Uint32(raw[4:]))), "to": to}))
 			case "SyncBegin":
 				t.Emit(r.with(hx.J{"a": "SyncBegin", "state": abs.CliStateJ(cl.VerifStateLocked())}))
 			case "SyncPick":
